@@ -478,6 +478,15 @@ func (s *stubServer) maybeCorrupt(v any, permil int, what string) any {
 				typed = append(typed, q)
 			}
 		}
+		var enums []jpath
+		for _, q := range typed {
+			if q.key == "enum" {
+				enums = append(enums, q)
+			}
+		}
+		if len(enums) > 0 && s.r.Intn(3) == 0 {
+			typed = enums // few and far between, but the one corner with its own little grammar
+		}
 		if len(typed) > 0 {
 			q := typed[s.r.Intn(len(typed))]
 			var j any
